@@ -11,7 +11,7 @@
 //@include units/modules.rs
 //@include units/speclib_fp.rs
 //@include units/speclib_edf.rs
-//@include units/ros2_ecrts19.rs
-//@include units/lemmas_ecrts19.rs
-
+//@include units/speclib_edfx.rs
+//@include units/fifo.rs
+//@include units/lemmas_edf.rs
 fn main() {}
